@@ -127,4 +127,4 @@ let () =
       register2 k (fun a impl ->
           let sym = (match String.index_opt impl ':' with Some i -> String.sub impl 0 i | None -> impl) in
           { model = "-"; spec = "same"; cls = if impl = "same" then "" else Printf.sprintf "%s:%s:%s" k a.(0) sym }))
-    ["xtomat"; "xeng"; "rrepeat"; "slinto"]
+    ["xtomat"; "xeng"; "rrepeat"; "slinto"; "xcopyov"]
